@@ -69,6 +69,26 @@ func checkC03(c *Ctx) {
 		chSym := m.Sym.Of(m.traceValue(send.Chan))
 		capOK := chSym.Op == "makechan" && len(chSym.Args) == 1 && func() bool { n, ok := chSym.Args[0].ConstInt(); return ok && n >= 1 }()
 		c.check(capOK, "R1", "result channel is buffered", send, "channel %s (a goroutine abandoned after the time-out must not block for ever on its send)", chSym)
+		// a fresh channel per attempt: a channel shared between attempts hands the late result
+		// of an abandoned attempt to the next one (the loop then runs one result behind)
+		if mc, ok := m.traceValue(send.Chan).(*ssa.MakeChan); ok {
+			var spawnAt ssa.Instruction
+			for _, sp := range m.Spawns() {
+				for _, t := range sp.Targets {
+					if t == g || m.staticReach(t, false)[g] {
+						spawnAt = sp.At
+					}
+				}
+			}
+			fresh := false
+			if spawnAt != nil {
+				if lifted := m.liftTo(mc.Parent(), spawnAt); lifted != nil {
+					// the channel is made inside the innermost loop that contains the spawn
+					fresh = !inLoop(lifted.Block()) || sameLoop(mc.Block(), lifted.Block())
+				}
+			}
+			c.check(fresh, "R1", "result channel is created per attempt", mc, "the make(chan) at %s is inside the loop iteration that starts the attempt: %v (a channel shared between attempts delivers an abandoned attempt's late result to the next attempt)", c.posOf(mc), fresh)
+		}
 		// the waiting select
 		var sel *ssa.Select
 		for _, uf := range m.unitFns(rf) {
@@ -520,4 +540,24 @@ func refreshPeriodRule(c *Ctx, rule string) {
 	if nTk != 1 {
 		c.undecided(rule, "refresh ticker", firstInstr(rf), "%d tickers in the refresh loop function, expected 1", nTk)
 	}
+}
+
+
+// sameLoop: a and b lie in a common CFG cycle.
+func sameLoop(a, b *ssa.BasicBlock) bool {
+	for _, l := range cfgLoops(a.Parent()) {
+		ina, inb := false, false
+		for _, x := range l {
+			if x == a {
+				ina = true
+			}
+			if x == b {
+				inb = true
+			}
+		}
+		if ina && inb {
+			return true
+		}
+	}
+	return false
 }
